@@ -381,12 +381,16 @@ class Normaliser:
                 return
             if op == "abs":
                 n, d = self._pair(t.args[0])
-                if d != R_.one:
+                if n == 0:
+                    self.nf[t.id] = (R_.zero, R_.one)  # |0| = 0 (an identically-zero argument)
+                    return
+                if d != R_.one and not self._poly_positive(d):
                     raise NormFail("abs of rational function")
+                # |n/d| = |n|/d for d > 0 : the atom stands for |n|
                 i = self.idx[self.gen_of[t.id]]
                 self.rel[i] = self.red(n * n)
                 self.rel_order.insert(0, i)
-                self.nf[t.id] = (g, R_.one)
+                self.nf[t.id] = (g, d)
                 return
             self.nf[t.id] = (g, R_.one)
             return
